@@ -38,7 +38,11 @@ def post_strip_ws(out):
             if not ((i + 2 < len(tk) and _is_cm(tk[i + 2][0])) or (i > 0 and _is_cm(tk[i - 1][0]))):
                 return ('blank-after-open-paren', repr(''.join(v for _, v in tk[max(0, i - 1):i + 4])))
         if tn == 'Punctuation' and v == ')' and i > 0 and _is_ws(tk[i - 1][0]):
-            if not ((i > 1 and _is_cm(tk[i - 2][0])) or (i + 1 < len(tk) and _is_cm(tk[i + 1][0]))):
+            # (a comment right behind the parenthesis - directly or after a blank - is attached to it by the parser:
+            # that is "next to a comment" too)
+            after = [t for t, _ in tk[i + 1:i + 3]]
+            if not ((i > 1 and _is_cm(tk[i - 2][0])) or (after and _is_cm(after[0]))
+                    or (len(after) > 1 and _is_ws(after[0]) and _is_cm(after[1]))):
                 return ('blank-before-close-paren', repr(''.join(v for _, v in tk[max(0, i - 3):i + 2])))
     return None
 
